@@ -27,6 +27,10 @@ def parseOp : List String → Option (Op × String)
   | ["write", len, id, all, sched] => do
       let len ← len.toNat?; let id ← id.toNat?; let all ← bool? all
       pure (.write ((List.range len).map (writeByte id)) all, sched)
+  -- a trailing `d`: the operation was issued with the dispatch counter at its limit (deferred to the poller instead of being
+  -- tried at once); neither the monitor nor the model sees a difference — that is the claim
+  | ["read", len, all, sched, "d"] => parseOp ["read", len, all, sched]
+  | ["write", len, id, all, sched, "d"] => parseOp ["write", len, id, all, sched]
   | _ => none
 
 def parseObs : List String → Option Obs
@@ -76,6 +80,14 @@ def checkWith (sc : Driver.Script)
         match parseOp toks with
         | some op => pending := some op; res := { res with ops := res.ops + 1 }
         | none => res := { res with envBad := res.envBad <|> some (i, s!"unparsable operation: {ln.raw}") }
+    else if ln.kind == '<' && ln.toks == ["completed-inline-at-the-dispatch-limit"] then
+      res := { res with specFail := res.specFail <|> some (i, "key=xfer.completed-inline-at-the-dispatch-limit the operation was issued with IO.Dispatched at MaxCallbackDispatch and its callback ran before the call returned") }
+    else if ln.kind == '<' && ln.toks.drop 1 == ["inflight"] then
+      -- every generated schedule ends in an entry that ends the operation (EOF, failure, the peer going away)
+      res := { res with specFail := res.specFail <|> some (i, "key=xfer.operation-never-completed the completion callback did not run although the transport was ready with the result that ends the operation") }
+      pending := none
+    else if ln.kind == '<' && ln.toks == ["callback-twice"] then
+      res := { res with specFail := res.specFail <|> some (i, "key=xfer.callback-twice the completion callback of one operation ran twice") }
     else if ln.kind == '<' then
       match pending, parseObs ln.toks, s with
       | some (op, sched), some ob, some st =>
